@@ -13,6 +13,11 @@ for _p in sorted(glob.glob(os.path.join(_here, "harness", "c[0-9][0-9]", "config
     _pid = "C" + re.search(r"c(\d\d)", os.path.basename(os.path.dirname(_p))).group(1)
     PROPS[_pid] = _ns["PROP"]
 
+# Only these are claimed in MANIFEST.json (a package can exist while it is still being built).
+CLAIMED = ["C01", "C15"]
+PROPS_ALL = PROPS
+PROPS_CLAIMED = {k: v for k, v in PROPS.items() if k in CLAIMED}
+
 # Properties deliberately not claimed, with the reason (others not yet built get a default reason).
 NOT_APPLICABLE = {}
 # /repo commits that add build-tag-guarded hooks (MANIFEST.hooks.source_commits)
